@@ -353,6 +353,73 @@ def judgeCip (id : String) (dom : String) (n : Nat) (arg : Elem) (ans : Bool) : 
     if b == ans then s!"ok {id} ref={if b then 1 else 0}"
     else s!"MISMATCH {id} contains-integer-point library answers {if ans then 1 else 0}, the set dictates {if b then 1 else 0}"
 
+/-! ### the model against the real template (`trace` lines)
+
+`trace <id> <description> | O <k> <entry>* | F <term> | Q <0|1>`: the template
+`Implementation::wrap_assign<PSET>` was run on a PSET that records the symbolic term of every object
+and the answers of `is_empty` / `minimize` / `maximize`.  The model runs over the same symbolic
+domain (`γ = ∅`, so every soundness field holds vacuously) with the recorded answers; the final terms
+must coincide. -/
+
+def conStr (n : Nat) (c : Con) : String :=
+  (padTo n c.coeffs).foldl (fun s a => s ++ ":" ++ toString a) ((if c.strict then ">" else ">=") ++ ":" ++ toString c.k)
+
+def lookupT (tab : List (String × String)) (k : String) : Option String := (tab.find? fun e => e.1 == k).map (·.2)
+
+def traceDom (n : Nat) (tab : List (String × String)) : Dom where
+  D := String
+  γ := fun _ _ => False
+  botLike := fun _ => "B"
+  isEmpty := fun t => lookupT tab ("E " ++ t) == some "1"
+  refine := fun t c => "R(" ++ t ++ "," ++ conStr n c ++ ")"
+  refineAll := fun t cs => "S(" ++ t ++ ",{" ++ ";".intercalate (cs.map (conStr n)) ++ "})"
+  translate := fun t x s => "T(" ++ t ++ "," ++ toString x ++ "," ++ toString s ++ ")"
+  join := fun a b => "J(" ++ a ++ "," ++ b ++ ")"
+  unconstrain := fun t x => "U(" ++ t ++ "," ++ toString x ++ ")"
+  minimize := fun t x =>
+    match lookupT tab ("m " ++ t ++ " " ++ toString x) with
+    | some v => match v.splitOn " " with
+      | [a, b] => if a == "none" then none else some (mkRat (tokInt a) (tokNat b))
+      | _ => none
+    | none => none
+  maximize := fun t x =>
+    match lookupT tab ("M " ++ t ++ " " ++ toString x) with
+    | some v => match v.splitOn " " with
+      | [a, b] => if a == "none" then none else some (mkRat (tokInt a) (tokNat b))
+      | _ => none
+    | none => none
+  isEmpty_sound := fun _ _ _ h => h
+  refine_sound := fun _ _ _ h _ => h
+  refineAll_sound := fun _ _ _ h _ => h
+  translate_sound := fun _ _ _ _ h => h
+  join_left := fun _ _ _ h => h
+  join_right := fun _ _ _ h => h
+  unconstrain_sound := fun _ _ _ _ h => h
+  minimize_sound := fun _ _ _ _ _ h => h.elim
+  maximize_sound := fun _ _ _ _ _ h => h.elim
+
+def parseOracle (ts : List String) : List (String × String) :=
+  -- entries: `E term ans` | `m term x n d` | `M term x n d`
+  let rec go (fuel : Nat) (ts : List String) (acc : List (String × String)) : List (String × String) :=
+    match fuel, ts with
+    | 0, _ => acc
+    | _, [] => acc
+    | f + 1, "E" :: t :: a :: r => go f r ((("E " ++ t), a) :: acc)
+    | f + 1, k :: t :: x :: a :: b :: r => go f r (((k ++ " " ++ t ++ " " ++ x), a ++ " " ++ b) :: acc)
+    | _, _ => acc
+  go ts.length ts []
+
+def judgeTrace (id : String) (n : Nat) (cfg : WrapCfg) (oracle : List String) (final : String) (same : Bool) : String :=
+  let tab := parseOracle (oracle.drop 1)
+  let d := traceDom n tab
+  let mw : String := wrapAssign d cfg ("I" : String)
+  let mf : String := wrapAssignFixed d cfg ("I" : String)
+  let trips := wrapTrips d cfg ("I" : String)
+  if !same then s!"DIVERGE {id} the template instantiated on the tracing PSET and C_Polyhedron::wrap_assign give different sets"
+  else if mw == final then s!"ok {id} trace=written trips={if trips then 1 else 0} queries={tab.length}"
+  else if mf == final then s!"ok {id} trace=repaired trips={if trips then 1 else 0} queries={tab.length}"
+  else s!"DIVERGE {id} model={mw} real={final}"
+
 /-! ### lines -/
 
 def splitBar (ts : List String) : List (List String) :=
@@ -364,6 +431,27 @@ def judgeLine (line : String) : Option String :=
   let ts := toks line
   match ts with
   | kind :: id :: rest =>
+    if kind == "trace" then
+      match splitBar rest with
+      | desc :: o :: f :: q :: [] =>
+        (match desc with
+        | _ :: _ :: ns :: d =>
+          let n := tokNat ns
+          let (vars, d1) := parseVars d
+          match d1 with
+          | w :: rr :: oo :: g :: d2 =>
+            let (guard, d3) := if g == "1" then (let (cs, r') := parseCS n d2; (some cs, r')) else (none, d2)
+            match d3 with
+            | thr :: ind :: _ =>
+              let cfg : WrapCfg := ⟨vars, tokNat w, if rr == "u" then .unsigned else .signed,
+                if oo == "w" then .wraps else if oo == "u" then .undefined else .impossible,
+                guard, tokNat thr, ind == "1"⟩
+              some (judgeTrace id n cfg (o.drop 1) (f.getD 1 "") (q.getD 1 "" == "1"))
+            | _ => some s!"skip {id} parse"
+          | _ => some s!"skip {id} parse"
+        | _ => some s!"skip {id} parse")
+      | _ => some s!"skip {id} trace-exception"
+    else
     if kind != "wrap" && kind != "drop" && kind != "cip" then none else
     let parts := splitBar rest
     match parts with
